@@ -322,21 +322,23 @@ Proof. intros Hr HN Hnw Hd H.
 Record ghost := { g0 : log; ga : log; gb : log }.
 Definition gnil : ghost := {| g0 := []; ga := []; gb := [] |}.
 
-(* Inc/IncA/IncB append (now, v) to the log of their counter; Reset empties it *)
-Definition glog (s : st) (h : ghost) (o : op) : ghost :=
+(* Inc/IncA/IncB append (now, v) to the log of their counter, the two Append operations (now, amount appended);
+   Reset empties it *)
+Definition glog (r : Z) (s : st) (h : ghost) (o : op) : ghost :=
   match o with
   | Inc v => {| g0 := (now s, v) :: g0 h; ga := ga h; gb := gb h |}
   | Reset => {| g0 := []; ga := ga h; gb := gb h |}
   | IncA v => {| g0 := g0 h; ga := (now s, v) :: ga h; gb := gb h |}
   | IncB v => {| g0 := g0 h; ga := ga h; gb := (now s, v) :: gb h |}
   | RReset => {| g0 := g0 h; ga := []; gb := [] |}
+  | Append _ | AppendClone => {| g0 := (now s, appended r s o) :: g0 h; ga := ga h; gb := gb h |}
   | Count | Tick _ | Ratio => h
   end.
 
 Fixpoint gexec (r : Z) (s : st) (h : ghost) (ops : list op) : st * ghost :=
   match ops with
   | [] => (s, h)
-  | o :: rest => gexec r (fst (step r s o)) (glog s h o) rest
+  | o :: rest => gexec r (fst (step r s o)) (glog r s h o) rest
   end.
 
 (* the ghost logs do not influence the counters *)
@@ -345,7 +347,7 @@ Proof. induction ops as [|o rest IH]; intros s h; cbn; [reflexivity|apply IH]. Q
 
 Definition ticks_nonneg (ops : list op) : Prop := forall d, In (Tick d) ops -> 0 <= d.
 Definition incs_nonneg (ops : list op) : Prop :=
-  forall v, In (Inc v) ops \/ In (IncA v) ops \/ In (IncB v) ops -> 0 <= v.
+  forall v, In (Inc v) ops \/ In (IncA v) ops \/ In (IncB v) ops \/ In (Append v) ops -> 0 <= v.
 
 Definition SInv (r N : Z) (s : st) (h : ghost) : Prop :=
   N * r <= now s /\
@@ -356,7 +358,7 @@ Proof. intros Hr HN Hs. assert (0 <= start) by nia.
   refine (conj _ (conj _ (conj _ _))); [exact Hs| | |]; apply CInv_new; assumption. Qed.
 
 Lemma SInv_step r N s h o : 0 < r -> 0 < N -> (forall d, o = Tick d -> 0 <= d) ->
-  SInv r N s h -> SInv r N (fst (step r s o)) (glog s h o).
+  SInv r N s h -> SInv r N (fst (step r s o)) (glog r s h o).
 Proof. intros Hr HN Hd (Hnw & H0 & Ha & Hb). assert (0 <= now s) by nia.
   destruct o; cbn [step glog fst count now c0 ca cb g0 ga gb]; unfold SInv; cbn [now c0 ca cb g0 ga gb];
     refine (conj _ (conj _ (conj _ _))); try assumption.
@@ -372,7 +374,9 @@ Proof. intros Hr HN Hd (Hnw & H0 & Ha & Hb). assert (0 <= now s) by nia.
   - apply CInv_cleanup; assumption.
   - apply CInv_cleanup; assumption.
   - eapply CInv_reset; eassumption.
-  - eapply CInv_reset; eassumption. Qed.
+  - eapply CInv_reset; eassumption.
+  - apply CInv_inc; assumption.
+  - apply CInv_inc; try assumption. apply CInv_cleanup; assumption. Qed.
 
 Lemma SInv_gexec r N ops : 0 < r -> 0 < N -> forall s h s' h', ticks_nonneg ops ->
   SInv r N s h -> gexec r s h ops = (s', h') -> SInv r N s' h'.
@@ -388,14 +392,42 @@ Proof. intros Hv Hl e [<-|He]; [exact Hv|apply Hl, He]. Qed.
 Lemma nonneg_nil : nonneg [].
 Proof. intros e []. Qed.
 
-Lemma GNonneg_gexec r ops : forall s h s' h', incs_nonneg ops ->
-  GNonneg h -> gexec r s h ops = (s', h') -> GNonneg h'.
-Proof. induction ops as [|o rest IH]; intros s h s' h' Hn Hg E; cbn in E; [inv E; exact Hg|].
-  eapply IH; [| |exact E].
+Lemma sumif_nonneg p l : nonneg l -> 0 <= sumif p l.
+Proof. induction l as [|e l IH]; intros H; cbn [sumif]; [lia|].
+  pose proof (H e (or_introl eq_refl)). pose proof (IH (fun e' He' => H e' (or_intror He'))). destruct (p e); lia. Qed.
+
+(* Append of a freshly built counter that was just incremented by v adds exactly v *)
+Lemma appended_fresh r N nw v c : 0 < r -> 0 < N -> N * r <= nw -> len c = N ->
+  snd (count r nw (inc r nw v (new_counter (len c)))) = v.
+Proof. intros Hr HN Hnw Hlen. rewrite Hlen. assert (0 <= nw) by nia.
+  rewrite (count_window r N nw _ [(nw, v)] Hr HN Hnw).
+  - cbn [sumif]. unfold inwin. cbn [fst snd]. zcases.
+  - apply CInv_inc; try assumption. apply CInv_new; assumption. Qed.
+
+(* Append of the counter's own Clone adds exactly its current window count *)
+Lemma appended_clone r N nw c l : 0 < r -> 0 < N -> N * r <= nw -> CInv r N nw c l ->
+  snd (count r nw (snd (clone r nw c))) = sumif (inwin r N (sl r nw)) l.
+Proof. intros Hr HN Hnw H. apply count_window; try assumption.
+  pose proof (CInv_cleanup r N nw c l Hr HN Hnw H) as (Hlen & Hlu & Hl & kc & Hkc & Hv).
+  unfold clone. cbn [snd]. unfold CInv. cbn [values lastUpdated]. split; [exact Hlen|]. split; [exact Hlu|]. split; [exact Hl|].
+  exists kc. split; assumption. Qed.
+
+Lemma GNonneg_step r N s h o : 0 < r -> 0 < N -> SInv r N s h -> GNonneg h ->
+  (forall v, o = Inc v \/ o = IncA v \/ o = IncB v \/ o = Append v -> 0 <= v) -> GNonneg (glog r s h o).
+Proof. intros Hr HN (Hnw & H0 & _) (G0 & Ga & Gb) Hv.
+  destruct o; cbn [glog]; unfold GNonneg; cbn [g0 ga gb]; repeat split; try assumption; try apply nonneg_nil;
+    apply nonneg_cons; try assumption; try (apply Hv; auto; fail).
+  - cbn [appended]. rewrite (appended_fresh r N) by (try assumption; apply H0). apply Hv; auto.
+  - cbn [appended]. rewrite (appended_clone r N _ _ (g0 h)) by assumption. apply sumif_nonneg; assumption. Qed.
+
+Lemma GNonneg_gexec r N ops : 0 < r -> 0 < N -> forall s h s' h', ticks_nonneg ops -> incs_nonneg ops ->
+  SInv r N s h -> GNonneg h -> gexec r s h ops = (s', h') -> GNonneg h'.
+Proof. intros Hr HN. induction ops as [|o rest IH]; intros s h s' h' Ht Hn Hi Hg E; cbn in E; [inv E; exact Hg|].
+  eapply IH; [| | | |exact E].
+  - intros d Hin. apply Ht. right; exact Hin.
   - intros v Hin. apply Hn. intuition.
-  - destruct Hg as (G0 & Ga & Gb).
-    destruct o; cbn [glog]; unfold GNonneg; cbn [g0 ga gb]; repeat split; try assumption;
-      try apply nonneg_nil; apply nonneg_cons; try assumption; apply Hn; cbn; auto. Qed.
+  - apply SInv_step; try assumption. intros d ->. apply Ht. left; reflexivity.
+  - eapply GNonneg_step; try eassumption. intros v Hv. apply Hn. cbn [In]. intuition (subst; auto). Qed.
 
 (* ---------- theorems over every history ---------- *)
 Section Reach.
@@ -432,7 +464,8 @@ Section Reach.
   Lemma reach_window : incs_nonneg ops -> forall c l, In (c, l) counters ->
     since_incl ((N - 1) * r) (now s) l <= snd (count r (now s) c) <= since_excl (N * r) (now s) l.
   Proof. intros Hnn c l Hin. destruct reach_SInv as (Hnw & _).
-    assert (Hg : GNonneg h). { eapply GNonneg_gexec; [exact Hnn| |exact Hrun]. repeat split; apply nonneg_nil. }
+    assert (Hg : GNonneg h).
+    { eapply (GNonneg_gexec r N); [lia|lia|exact Hticks|exact Hnn| | |exact Hrun]; [apply SInv_init; lia|repeat split; apply nonneg_nil]. }
     apply count_bounds; try lia; [apply reach_CInv, Hin|].
     destruct Hg as (G0 & Ga & Gb). destruct Hin as [E|[E|[E|[]]]]; inv E; assumption. Qed.
 
@@ -461,7 +494,4 @@ Proof. intros H. unfold ratio_q. destruct (Z.eqb_spec (a + b) 0); [lia|].
 Lemma ratio_q_empty a b : a + b = 0 -> ratio_q a b = 0%Q.
 Proof. intros H. unfold ratio_q. rewrite H. reflexivity. Qed.
 
-Lemma sumif_nonneg p l : nonneg l -> 0 <= sumif p l.
-Proof. induction l as [|e l IH]; cbn; intros H; [lia|].
-  pose proof (H e (or_introl eq_refl)). assert (0 <= sumif p l) by (apply IH; intros x Hx; apply H; right; exact Hx).
-  destruct (p e); lia. Qed.
+
